@@ -864,6 +864,7 @@ type results struct {
 	DistinctIn  int                    `json:"distinct_hostile_inputs"`
 	Streams     map[string]*streamStat `json:"streams"`
 	ByTransport map[string]int         `json:"steps_by_transport"`
+	ByConfig    map[string]int         `json:"histories_by_router_config"`
 	ByMsgType   map[string]int         `json:"hostile_by_message_type"`
 	ByKind      map[string]int         `json:"hostile_by_value_kind"`
 	Keys        int                    `json:"keys"`
@@ -1036,6 +1037,43 @@ func runMain(args []string) {
 	listCtx := *g
 	listCtx.stub = true
 	hs := genAll(&listCtx)
+	// every history is run against several router configurations (quick: 2 of
+	// the first 3, thorough: 3 of 4), chosen by its name so that each stream
+	// meets all of them
+	{
+		per, of := 2, 3
+		if !g.quick {
+			per, of = 3, numConfigs
+		}
+		if *race {
+			per = 2
+		}
+		var all []*History
+		for _, h := range hs {
+			if h.Stream == "corpus" {
+				for c := 0; c < 3; c++ {
+					cp := *h
+					cp.Config, cp.Base, cp.Name = c, h.Name, fmt.Sprintf("%s@c%d", h.Name, c)
+					all = append(all, &cp)
+				}
+				continue
+			}
+			hv := 0
+			for i := 0; i < len(h.Name); i++ {
+				hv = hv*31 + int(h.Name[i])
+			}
+			if hv < 0 {
+				hv = -hv
+			}
+			for k := 0; k < per; k++ {
+				cp := *h
+				cp.Config = (hv + k) % of
+				cp.Base, cp.Name = h.Name, fmt.Sprintf("%s@c%d", h.Name, cp.Config)
+				all = append(all, &cp)
+			}
+		}
+		hs = all
+	}
 	if *only != "" {
 		var f []*History
 		for _, h := range hs {
@@ -1086,15 +1124,21 @@ func runMain(args []string) {
 		if len(h.Steps) > 0 {
 			return h
 		}
+		base := h.Base
+		if base == "" {
+			base = h.Name
+		}
 		gc := *g
-		gc.want = h.Name
+		gc.want = base
 		genMu.Lock() // generation is allocation heavy: one at a time
 		defer genMu.Unlock()
 		onlyStream = h.Stream
 		defer func() { onlyStream = "" }()
 		for _, x := range genAll(&gc) {
-			if x.Name == h.Name && len(x.Steps) > 0 {
-				return x
+			if x.Name == base && len(x.Steps) > 0 {
+				cp := *x
+				cp.Config, cp.Base, cp.Name = h.Config, base, h.Name
+				return &cp
 			}
 		}
 		return nil
@@ -1125,7 +1169,7 @@ func runMain(args []string) {
 		e.timeout *= 3
 	}
 
-	res := &results{Tier: *tier, Seed: *seed, Race: *race, Streams: map[string]*streamStat{}, ByTransport: map[string]int{}, ByMsgType: map[string]int{},
+	res := &results{Tier: *tier, Seed: *seed, Race: *race, Streams: map[string]*streamStat{}, ByTransport: map[string]int{}, ByConfig: map[string]int{}, ByMsgType: map[string]int{},
 		ByKind: map[string]int{}, Keys: len(g.keys), Kinds: len(g.kinds)}
 	distinct := map[string]bool{}
 	var rmu sync.Mutex
@@ -1138,6 +1182,7 @@ func runMain(args []string) {
 			res.Streams[h.Stream] = ss
 		}
 		ss.Histories++
+		res.ByConfig[fmt.Sprintf("config%d", h.Config)]++
 		n := countSteps(h.Steps)
 		ss.Steps += n
 		res.Histories++
@@ -1161,7 +1206,7 @@ func runMain(args []string) {
 					res.ByTransport[transportSpec{sp.Transport, sp.Ser}.String()]++
 				}
 				if s.Note != "" {
-					distinct[h.Sessions[minInt(s.S, len(h.Sessions)-1)].Transport+"|"+h.Sessions[minInt(s.S, len(h.Sessions)-1)].Ser+"|"+s.Note] = true
+					distinct[fmt.Sprintf("c%d|", h.Config)+h.Sessions[minInt(s.S, len(h.Sessions)-1)].Transport+"|"+h.Sessions[minInt(s.S, len(h.Sessions)-1)].Ser+"|"+s.Note] = true
 					if s.M != nil {
 						res.ByMsgType[msgName(s.M.T)]++
 					} else {
